@@ -225,6 +225,14 @@ func (m *machine) emitQuery(parent *Sub, r res.Resource) {
 			return
 		}
 		m.body(sb, nil, false)
+		// the query request is a resource of the emitting resource's group: a later WithResource
+		// may be given it
+		m.mu.Lock()
+		if m.reqRes == nil {
+			m.reqRes = map[string]res.Resource{}
+		}
+		m.reqRes[parent.RID] = qr
+		m.mu.Unlock()
 		qr.NotFound()
 	})
 }
